@@ -138,6 +138,31 @@ def run(rep):
                 rep.fail("masked-atoms", "%s.%s" % (A.name, nm),
                          "message atom `%s` of %s is not masked by randomness drawn in this call: %s - it is a deterministic function of values the merchant may have seen / of customer secrets" % (
                              nm, A.name, S.show(S.canon(v))[:300]), site=A.new.loc())
+    # ---- a revealed scalar must not be the mask of a hidden slot
+    rep.rule("revealed-masks", "a commitment scalar published in the proof masks only slots whose value is public by design (establish: channel id, balances, close tag; pay: old nonce, close tag): publishing the mask of a hidden slot (nonce, lock, balance, channel id in pay) lets the merchant solve the response for the secret")
+    PUBLIC_ROLES = {"est": {("state", "cid"), ("state", "cust"), ("state", "merch"), ("close", "cid"), ("close", "cust"), ("close", "merch"), ("close", "close")},
+                    "pay": {("old", "nonce"), ("close", "close")}}
+    lay = layouts(rep)
+    for which in ("est", "pay"):
+        A = analyse(rep, which)
+        if A is None or lay is None:
+            continue
+        bound = bind_fields(rep, A)
+        if bound is None:
+            continue
+        fs = adt_fields(prog, A.adt)
+        for i, hits in sorted(bound["kappa"].items()):
+            bad = []
+            for pname, j in hits:
+                role = lay["close" if pname == "close" else "state"][j]
+                if (pname, role) not in PUBLIC_ROLES[which]:
+                    bad.append("%s proof slot %d (%s)" % (pname, j, role))
+            key = "%s.%s" % (A.name, fs[i]["n"])
+            if bad:
+                rep.fail("revealed-masks", key, "the published scalar `%s` is also the commitment scalar of %s: response - c*secret = published value, so the merchant can compute the hidden value" % (
+                    fs[i]["n"], ", ".join(bad)), site=A.new.loc())
+            else:
+                rep.ok("revealed-masks", key, sample="masks only %s" % ["%s[%d]" % h for h in hits])
     rep.floor("message atoms of the two proofs", n_atoms, 40)
     # ---- pay token shown in the pay proof is re-randomised (explicit, named rule)
     A = analyse(rep, "pay")
